@@ -43,7 +43,7 @@ Print Assumptions C04_info_flag_mirrors_response_flag.
 Theorem C04_logout_flag_iff : forall dsig cfg root el flag,
   logout_signature_step dsig cfg root = Ok (el, flag) ->
   (flag = true <-> cfg_skip_sig cfg = false /\ dsig root = DOk el) /\
-  (flag = false -> el = root /\ (cfg_skip_sig cfg = true \/ dsig root = DMissing)).
+  (flag = false -> el = root /\ (cfg_skip_sig cfg = true \/ (dsig root = DMissing /\ ~ EnvelopedSignature root))).
 Proof. exact logout_step_ok. Qed.
 Print Assumptions C04_logout_flag_iff.
 
